@@ -163,19 +163,36 @@ func (s *System) machineByAddr(addr string) *bigmachine.Machine {
 func (s *System) otherMachine(addr string) *bigmachine.Machine {
 	s.mu.Lock()
 	defer s.mu.Unlock()
+	var booting *bigmachine.Machine
 	for _, m := range s.live {
 		if !strings.Contains(m.Addr, addr) {
-			return m
+			if m.State() == bigmachine.Running {
+				return m
+			}
+			booting = m
 		}
 	}
+	_ = booting // a machine that is still booting is not killed (see Kill)
 	return nil
 }
 
 // Kill kills m (nil: a random live machine) synchronously.
 func (s *System) Kill(m *bigmachine.Machine) bool {
 	s.mu.Lock()
-	if m == nil && len(s.live) > 0 {
-		m = s.live[rand.Intn(len(s.live))]
+	if m == nil {
+		// Only machines that have finished booting are chosen: the owner of a machine that dies while it
+		// boots keeps retrying Supervisor.Register for up to 5 minutes (bigmachine), during which
+		// startMachines returns none of the machines of that batch - slow, not wedged, and outside the
+		// budgets of the checks.
+		var running []*bigmachine.Machine
+		for _, l := range s.live {
+			if l.State() == bigmachine.Running {
+				running = append(running, l)
+			}
+		}
+		if len(running) > 0 {
+			m = running[rand.Intn(len(running))]
+		}
 	}
 	for i, l := range s.live {
 		if l == m {
